@@ -88,6 +88,7 @@ pub struct Expanded {
     pub gen: String,    // ok | panic:<class> | -
     pub out_toks: String,
     pub out_valid_expr: String, // 1 | 0 | -
+    pub dot_ok: String,         // 1: every member-access operand is syntactically a member access (`x . operand` parses) | 0 | -
 }
 
 pub fn expand_src(kind: (bool, bool, bool), src: &str) -> Expanded {
@@ -101,6 +102,7 @@ pub fn expand_src(kind: (bool, bool, bool), src: &str) -> Expanded {
                 gen: "-".into(),
                 out_toks: "-".into(),
                 out_valid_expr: "-".into(),
+                dot_ok: "-".into(),
             }
         }
     };
@@ -119,6 +121,7 @@ pub fn expand_ts(kind: (bool, bool, bool), ts: TokenStream) -> Expanded {
                 gen: "-".into(),
                 out_toks: "-".into(),
                 out_valid_expr: "-".into(),
+                dot_ok: "-".into(),
             }
         }
         Ok(Err(e)) => {
@@ -129,6 +132,7 @@ pub fn expand_ts(kind: (bool, bool, bool), ts: TokenStream) -> Expanded {
                 gen: "-".into(),
                 out_toks: "-".into(),
                 out_valid_expr: "-".into(),
+                dot_ok: "-".into(),
             }
         }
         Ok(Ok(p)) => p,
@@ -153,6 +157,7 @@ pub fn expand_ts(kind: (bool, bool, bool), ts: TokenStream) -> Expanded {
             gen: format!("panic:{}", panic_class(&panic_msg(e))),
             out_toks: "-".into(),
             out_valid_expr: "-".into(),
+            dot_ok: dot_ok(&parsed),
         },
         Ok(out) => {
             let valid = syn::parse2::<syn::Expr>(out.clone()).is_ok();
@@ -163,9 +168,38 @@ pub fn expand_ts(kind: (bool, bool, bool), ts: TokenStream) -> Expanded {
                 gen: "ok".into(),
                 out_toks: canon(out),
                 out_valid_expr: if valid { "1".into() } else { "0".into() },
+                dot_ok: dot_ok(&parsed),
             }
         }
     }
+}
+
+/// Precondition of C15: member-access operands are syntactically member accesses.
+fn dot_ok(j: &JoinInputDefault) -> String {
+    use join_impl::chain::expr::{ActionExpr, ProcessExpr};
+    use join_impl::chain::Chain;
+    use quote::ToTokens;
+    // custom_joiner takes arbitrary tokens (a function path, a closure or a macro path): they must at least form a call
+    if let Some(jt) = &j.custom_joiner {
+        let probe: TokenStream = quote::quote! { #jt (__a, __b) };
+        if syn::parse2::<syn::Expr>(probe).is_err() {
+            return "0".into();
+        }
+    }
+    for b in &j.branches {
+        for m in b.members() {
+            if let ActionExpr::Process(ProcessExpr::Dot([e])) = m.expr() {
+                let t = e.to_token_stream();
+                let probe: TokenStream = quote::quote! { __x . #t };
+                match syn::parse2::<syn::Expr>(probe) {
+                    Ok(syn::Expr::Field(_)) | Ok(syn::Expr::MethodCall(_)) | Ok(syn::Expr::Await(_)) | Ok(syn::Expr::Call(_))
+                    | Ok(syn::Expr::Index(_)) | Ok(syn::Expr::Try(_)) => {}
+                    _ => return "0".into(),
+                }
+            }
+        }
+    }
+    "1".into()
 }
 
 fn mode_expand(with_oracle: bool) {
@@ -183,8 +217,8 @@ fn mode_expand(with_oracle: bool) {
         let r = expand_src(k, src);
         write!(
             out,
-            "{}\t{}\t{}\t{}\t{}\t{}\t{}\t{}",
-            id, kind, r.in_toks, r.parse, r.structure, r.gen, r.out_toks, r.out_valid_expr
+            "{}\t{}\t{}\t{}\t{}\t{}\t{}\t{}\t{}",
+            id, kind, r.in_toks, r.parse, r.structure, r.gen, r.out_toks, r.out_valid_expr, r.dot_ok
         )
         .unwrap();
         if with_oracle {
